@@ -76,7 +76,8 @@ def gen_case(rng):
             'leverage': rng.choice([0.5, 1.0, 2.0]), 'fee': fee,
             'cash': float(rng.choice([1e7, 2.5e7, 1e8])) if calm else float(rng.choice([1e5, 1e6, 2.5e7])),
             'seed_holdings': {} if calm else seed_holdings, 'steps': steps, 'calm': calm,
-            'other_portfolio': rng.choice([None, None, 'before', 'after', 'after'])}
+            'other_portfolio': rng.choice([None, None, 'before', 'after', 'after']),
+            'loud': rng.random() < 0.3, 'same_day': rng.random() < 0.3}
 
 
 def run_case(case, acc):
@@ -117,9 +118,14 @@ def run_case(case, acc):
     tr = sesswl.Trace()
     sesswl.CUR[0] = tr
     stats = {'target_allocations': []}
+    loud = core.loud(bool(case.get('loud')))
+    loud.__enter__()
     try:
         for i, st in enumerate(case['steps']):
-            t = t + pd.Timedelta(days=1 if t.weekday() < 4 else 3)
+            if case.get('same_day') and i % 2 == 1 and t.hour < 19:
+                t = t + pd.Timedelta(hours=2, minutes=30)          # a second rebalance on the same calendar day
+            else:
+                t = (t + pd.Timedelta(days=1 if t.weekday() < 4 else 3)).normalize() + pd.Timedelta(hours=15)
             book.now = t
             for a, q in st['quotes'].items():
                 book.set(a, *q)
@@ -154,7 +160,10 @@ def run_case(case, acc):
                 if a not in st['weights'] and a in held:
                     raise Violation('C09', 'dropped-asset-not-liquidated', 'held asset %s got no weight but is still held' % a, {})
             acc.count('C09:post_fill_checks')
+        if case.get('loud'):
+            acc.count('C09:cases_with_event_printing_on')
     finally:
+        loud.__exit__(None, None, None)
         sesswl.CUR[0] = None
     return tr
 
